@@ -4,7 +4,7 @@
     sumor -> OCaml types; fst/snd/andb/orb/negb inlined). Z / positive / nat stay Coq inductives. *)
 From Coq Require Extraction ExtrOcamlBasic.
 From Coq Require Import ZArith List.
-From CanVerif Require Import Socketcan.Wire Socketcan.WireSpec Socketcan.Receiver Socketcan.ReceiverSpec Socketcan.Transmitter Socketcan.Process Socketcan.ScanBuffer Socketcan.Glue Socketcan.Emulator.
+From CanVerif Require Import Socketcan.Wire Socketcan.WireSpec Socketcan.Receiver Socketcan.ReceiverSpec Socketcan.Transmitter Socketcan.Process Socketcan.ScanBuffer Socketcan.Glue Socketcan.Emulator Socketcan.Program.
 Extraction Language OCaml.
 Extraction "model.ml"
   validate S_validb wf_frameb block16b transmit_bytes S_layout receive16 S_decode
@@ -12,6 +12,7 @@ Extraction "model.ml"
   transmit transmit_all
   receivers_run transmitters_run see see_tx addressed_to
   geom0 prepare offered after_read
+  receive_prog transmit_prog first_diff
   emu_run inbox_of spec_frames never bytes_of
   fileconn_run udp_run dial_run dial0 dial_finished dial_returned_conn unwrap_path_error
   Z.add Z.mul Z.sub Z.ltb Z.leb Z.eqb Z.of_nat Z.to_nat Z.pow Z.modulo Z.div.
